@@ -42,8 +42,10 @@ def classify(pos: int, bit: int, frame_len: int) -> str:
     return "unspecified"            # message code, additional info length, NPDU length, APCI low octet
 
 
-def run_base(key: bytes, n: int, encrypt: bool, part: Part) -> None:
+def run_base(key: bytes, n: int, encrypt: bool, part: Part, pairs: str = "none", zero_tail: bool = False) -> None:
     apdu = apdu_of(n)
+    if zero_tail and n > 1:
+        apdu = apdu[:-1] + b"\x00"   # an APDU whose last octet is zero: dropping it is a length-only change
     payload = APCI.from_knx(apdu)
     base = secure_frame(key, SA, GA, SEQ, apdu, encrypt=encrypt)
     rx = Receiver({GA: key}, {SA: SEQ - 1})
@@ -88,6 +90,52 @@ def run_base(key: bytes, n: int, encrypt: bool, part: Part) -> None:
                     part.viol(f"unprotected-bit-affects-acceptance:{field}", f"{where}: delivered {got}; frame {raw.hex()}", case("flip", pos=pos, bit=bit), rank=(n, pos, bit))
             elif got and (len(got) != 1 or got[0].payload != payload):
                 part.viol(f"tampered-frame-delivers-other-content:{field}", f"{where}: {got}", case("flip", pos=pos, bit=bit), rank=(n, pos, bit))
+    # length-only tampering of the secured APDU: octets inserted in front of the MAC (zeros, ones) or the last APDU octet removed,
+    # the NPDU length octet corrected - the length is covered by the MAC in both algorithms
+    body, mac = base[:-4], base[-4:]
+    variants = [(f"insert-{k}x{fill:02x}", body + bytes((fill,)) * k + mac, k) for k in (1, 2, 3, 4, 15, 16) for fill in (0x00, 0xFF)]
+    variants += [(f"remove-last-{k}", body[:-k] + mac, -k) for k in (1, 2) if len(body) - k > 18]
+    for name, raw, delta in variants:
+        if not 0 <= raw[8] + delta <= 254:
+            continue
+        raw = raw[:8] + bytes((raw[8] + delta,)) + raw[9:]
+        if len(raw) - 10 > 15:
+            raw = raw[:2] + bytes((raw[2] & 0x7F,)) + raw[3:]   # more than 15 octets: extended frame type bit (unprotected)
+        got, exc = feed(raw)
+        part.evaluations += 1
+        part.nontrivial += 1
+        if exc is not None:
+            part.viol(exc_sig("tampered-frame-raises:length", exc), f"{alg} apdu_len={n} {name}: {exc!r}; frame {raw.hex()}", case("length", name=name), rank=(n, abs(delta)))
+        elif got:
+            part.viol(f"tampered-frame-delivered:{alg}:length", f"{alg} apdu_len={n} {name}: delivered {got[0].payload}; frame {raw.hex()}", case("length", name=name), rank=(n, abs(delta)))
+    # every PAIR of bit flips (thorough: all pairs; quick: pairs within the control / TPCI / SCF / first and last secured octets and the MAC)
+    if pairs != "none":
+        nbits = len(base) * 8
+        if pairs == "all":
+            cand = list(range(nbits))
+        else:
+            octets = sorted({2, 3, 9, 11, 12, 17, 18, len(base) - 5, len(base) - 4, len(base) - 1} & set(range(len(base))))
+            cand = [o * 8 + b for o in octets for b in range(8)]
+        for ia, a in enumerate(cand):
+            for b in cand[ia + 1:]:
+                raw_l = bytearray(base)
+                raw_l[a // 8] ^= 1 << (a % 8)
+                raw_l[b // 8] ^= 1 << (b % 8)
+                ca, cb = classify(a // 8, a % 8, len(base)), classify(b // 8, b % 8, len(base))
+                got, exc = feed(bytes(raw_l))
+                part.evaluations += 1
+                where = f"bits {a // 8}.{a % 8} ({ca}) + {b // 8}.{b % 8} ({cb}) of {alg} frame apdu_len={n}"
+                if exc is not None:
+                    part.viol(exc_sig("tampered-frame-raises:two-bits", exc), f"{where}: {exc!r}", case("pair", a=a, b=b), rank=(n, a, b))
+                elif "unspecified" in (ca, cb):
+                    continue   # e.g. the APCI low octet: the frame may stop being an A_SecureData frame at all (then it is a plain frame, C18's subject)
+                elif "protected" in (ca, cb):
+                    part.nontrivial += 1
+                    if got:
+                        part.viol(f"tampered-frame-delivered:{alg}:two-bits", f"{where}: delivered {got[0].payload}; frame {bytes(raw_l).hex()}", case("pair", a=a, b=b), rank=(n, a, b))
+                elif ca == cb == "unprotected":
+                    if len(got) != 1 or got[0].payload != payload or not got[0].data_secure:
+                        part.viol("unprotected-bit-affects-acceptance:two-bits", f"{where}: delivered {got}", case("pair", a=a, b=b), rank=(n, a, b))
     # wrong keys
     for other in (bytes(16), bytes(key[:-1]) + bytes((key[-1] ^ 1,)), bytes((key[0] ^ 0x80,)) + bytes(key[1:])):
         if other == key:
@@ -115,13 +163,13 @@ def run_base(key: bytes, n: int, encrypt: bool, part: Part) -> None:
                 part.viol(f"truncated-frame-delivered:{alg}", f"apdu_len={n} cut at {k} (length fixed={fix_len}): {got}", case("trunc", k=k, fix=fix_len), rank=(n, k))
 
 
-def worker(ki: int, n: int, encrypt: bool, seed: int) -> Part:
+def worker(ki: int, n: int, encrypt: bool, seed: int, pairs: str = "none", zero_tail: bool = False) -> Part:
     part = Part()
     key = [bytes(range(16)), seed_bytes(seed, 16, 61)][ki]
     orig = Management.process
     Management.process = lambda self, telegram: None  # type: ignore[method-assign]
     try:
-        run_base(key, n, encrypt, part)
+        run_base(key, n, encrypt, part, pairs, zero_tail)
     finally:
         Management.process = orig  # type: ignore[method-assign]
     part.sample({"key": key, "apdu_len": n, "algorithm": "A+C" if encrypt else "auth-only", "variants": "every single-bit flip, 3 wrong keys, every truncation"})
@@ -134,9 +182,10 @@ def run(ctx: Ctx) -> None:
         f"secured frames built by the independent reference (vf/ref/ccm.py) for keys {{00 01..0F, seed}} x both algorithms x APDU lengths {lens}: EVERY single-bit flip of EVERY octet, "
         "3 wrong keys, every truncation (with and without corrected length octet) through the real handle_raw_cemi with the freshness table reset before each variant. Reference field map: "
         "Ctrl1 FT/repeat/priority and hop count unprotected (must be delivered unchanged); AT, EFF, addresses, TPCI, SCF, sequence number, secured APDU, MAC protected (must not be delivered); "
-        "other bits: never a different telegram; nothing raises"
+        "other bits: never a different telegram; nothing raises. Plus length-only tampering (1-16 zero / 0xFF octets inserted before the MAC, the last 1-2 APDU octets removed - also of APDUs ending in 0x00 - with the length octet corrected) "
+        "and PAIRS of bit flips (thorough: every pair of bits of every frame up to 17 APDU octets; otherwise all pairs within the control, TPCI, SCF, first/last secured octets and MAC)"
     )
-    ctx.pmap(worker, [(k, n, enc, ctx.seed) for k in (0, 1) for n in lens for enc in (True, False)])
+    ctx.pmap(worker, [(k, n, enc, ctx.seed, ("all" if n <= 17 else "some") if ctx.thorough else ("some" if n in (1, 2, 5) else "none"), zt) for k in (0, 1) for n in lens for enc in (True, False) for zt in (False, True) if not (zt and n == 1)])
 
 
 def replay(case: Any) -> list[tuple[str, str]]:
@@ -144,7 +193,8 @@ def replay(case: Any) -> list[tuple[str, str]]:
     orig = Management.process
     Management.process = lambda self, telegram: None  # type: ignore[method-assign]
     try:
-        run_base(bytes(case["key"]), case["n"], case["enc"], part)
+        run_base(bytes(case["key"]), case["n"], case["enc"], part, "all" if case.get("kind") == "pair" else "none", True)
+        run_base(bytes(case["key"]), case["n"], case["enc"], part, "none", False)
     finally:
         Management.process = orig  # type: ignore[method-assign]
     return [(s, v[1]) for s, v in part.viols.items()]
